@@ -6,6 +6,11 @@ VERIF = os.path.dirname(os.path.dirname(os.path.abspath(__file__)))
 ALL = ["C%02d" % i for i in range(1, 21)]
 
 CLAIMED = {
+ "C10": dict(
+   technique="TLA+ spec DomainTracker.tla (Mirror invariant over live cache entries; syncOwner write plan + tracker bookkeeping as implementation layer) model-checked exhaustively with TLC; TLC histories replayed through BatchUpdateDomainRouting/BatchRemoveDomainRouting with a real kernel domain_routing_map read back after every step",
+   text="TLC checks Mirror (kernel table = OR of the bitmaps of the live entries listing each address; no entry otherwise; unspecified addresses never) in all 32768 reachable cache configurations and emits every history of length 4 over a reduced alphabet plus random histories of length 14; each history is executed on the real tracker writing a real kernel map, and the whole map is compared with the spec after every step.",
+   note="Trusted: TLC, kernel hash map. Events enter at controlPlaneCore.BatchUpdate/RemoveDomainRouting (what the DNS controller callbacks invoke); 3 owners, 3 addresses (+0.0.0.0/::), 3 bits placed at indices 0/33/1023.",
+   design="§3 C10"),
  "C13": dict(
    technique="TLA+ spec UdpTaskPool.tla (one action per atomic step between the verif yield points of udp_task_pool.go) model-checked exhaustively with TLC; TLC counterexamples and simulated behaviours forced on the real UdpTaskPool through blocking yield hooks (controlled scheduler), plus seeded random gated walks with the property layer evaluated on the real execution log",
    text="TLC explores every interleaving of producers (acquire fast path / create / LoadOrStore / enqueue / release) with the per-flow worker's pop, idle timer, emptiness check, claim, table removal and channel recycling, checking exactly-once, per-flow FIFO, one-at-a-time, no-foreign-queue and no-residue. The counterexample schedules TLC finds in the check-then-claim variant (the defect repaired by a fix: commit) and simulated behaviours of the repaired model are replayed step by step on the real pool with the yield hooks as scheduler gates; random gated walks explore schedules not taken from the model. Verdicts come only from the real execution log (lost, duplicated, foreign-queue, overlapping or out-of-order tasks).",
